@@ -190,3 +190,50 @@ def index_lines(n, accessors=("get", "index"), kind_modes=KIND_MODES):
 
 def index_exhaustive(shapes, L):
     return [Scenario(sh, [setup(n)] + index_lines(n), "index") for sh in shapes for n in range(L + 1)]
+
+
+# ------------------------------------------------------------------ generic trait layer (C09)
+
+T_OPS = {"push", "pop", "insert", "remove", "swap_remove", "replace", "truncate", "clear", "append", "split_off"}
+
+
+def to_trait(sc):
+    """the same scenario with every operation that exists in the traits dispatched through them"""
+    lines = []
+    for l in sc.lines:
+        w = l.split()
+        if w[0] in T_OPS: lines.append("t" + l)
+        elif w[0] == "new": lines.append("tnew " + w[1])
+        elif w[0] in ("len", "is_empty"): lines.append(f"tlen {w[1]} vec")
+        else: lines.append(l)
+    return Scenario(sc.shape, lines, "trait:" + sc.tag)
+
+
+KINDS3 = ["vec", "slice", "slicemut"]
+
+
+def bound_values(n):
+    return ["unb"] + [f"{k}:{v}" for k in ("inc", "exc") for v in boundary(n)]
+
+
+def trait_access(shapes, L):
+    out = []
+    for sh in shapes:
+        for n in range(L + 1):
+            lines = [setup(n)]
+            for kind in KINDS3:
+                lines.append(f"tlen r0 {kind}")
+                for m in ("first", "last"):
+                    lines.append(f"tget r0 {kind} {m}")
+                if kind != "slice":
+                    for m in ("first_mut", "last_mut"):
+                        lines.append(f"tget r0 {kind} {m}")
+                for i in boundary(n):
+                    for m in ("get", "index") + (("get_mut", "index_mut") if kind != "slice" else ()):
+                        lines.append(f"tget r0 {kind} {m} {i}")
+            for kind, mode in KIND_MODES:
+                for sb in bound_values(n):
+                    for eb in bound_values(n):
+                        lines.append(f"bounds r0 {kind} {mode} {sb} {eb}")
+            out.append(Scenario(sh, lines, "trait-access"))
+    return out
